@@ -647,4 +647,74 @@ theorem libsvm_numerals_counterexample :
     libsvmReadPy [[49, 32, 51, 58, 49, 32, 52, 58, 50, 32, 51, 58, 57]] = .ok [([(3, [57]), (4, [50])], [[49]])] := by
   refine ⟨?_, ?_, ?_, ?_, ?_⟩ <;> rfl
 
+/-! ### phase 6: histories of DiskSink / DiskSource operations over any number of files -/
+
+/-- For EVERY history of `DiskSink(p, batch=b).write(lines)`, complete `DiskSource(p).read()` and reads abandoned after `k`
+lines, over any number of paths, in any order (write/read/write/read; read, abandon, read again, read a sibling): every read
+returns exactly the lines written to *that* path so far, in order (the first `k` of them when abandoned;
+FileNotFoundError before the first write) — independent of every earlier read and of every operation on another path.
+Lines are Python strings without `\r`/`\n` (`diskOpOk`); plain files. -/
+theorem disk_history_roundtrip (ops : List DiskOp) (hok : ∀ op ∈ ops, diskOpOk op = true) :
+    diskRun List.flatten [] ops = .ok (diskSpecRun [] ops) :=
+  disk_history' List.flatten (fun _ => rfl) ops hok [] [] diskInv_empty
+
+/-- the same for `.gz` paths: every batch of every write is one more gzip member; assumed of gzip only that reading a
+multi-member file yields the concatenation of the members' contents (as in `disk_roundtrip_gz`) -/
+theorem disk_history_roundtrip_gz (gz gunzip : List Nat → List Nat)
+    (hgz : ∀ parts : List (List Nat), gunzip (parts.map gz).flatten = parts.flatten)
+    (ops : List DiskOp) (hok : ∀ op ∈ ops, diskOpOk op = true) :
+    diskRun (fun parts => gunzip (parts.map gz).flatten) [] ops = .ok (diskSpecRun [] ops) :=
+  disk_history' _ hgz ops hok [] [] diskInv_empty
+
+/-- non-vacuity: write `a` to path 0, read it, abandon a read, write `é` to the sibling path 1 and `b` to path 0 in batches
+of 1, read both -/
+example :
+    let ops := [DiskOp.write 0 none [[97]], .read 0, .readk 0 0, .read 1, .write 1 (some 1) [[233]], .write 0 (some 1) [[98], []],
+                .read 0, .readk 0 2, .read 1]
+    (∀ op ∈ ops, diskOpOk op = true) ∧
+    diskSpecRun [] ops = [.wrote, .lines (.ok [[97]]), .lines (.ok []), .nofile, .wrote, .wrote,
+                          .lines (.ok [[97], [98], []]), .lines (.ok [[97], [98]]), .lines (.ok [[233]])] := by
+  decide
+
+/-- `diskOpOk` is needed: a `\r` inside a written line comes back as a line boundary in a later read of the history -/
+theorem disk_history_cr_counterexample :
+    diskRun List.flatten [] [.write 0 none [[97, 13, 98]], .read 0] = .ok [.wrote, .lines (.ok [[97], [98]])] ∧
+    diskSpecRun [] [.write 0 none [[97, 13, 98]], .read 0] = [.wrote, .lines (.ok [[97, 13, 98]])] := by
+  decide
+
+/-! ### phase 6: the labelled CSV pipeline `CsvReader | LabelRows(label, tipe)` (label_col pass-through) -/
+
+/-- Every table an RFC 4180 writer produces (hypotheses of `csv_roundtrip`; all records of one width `n`, with or without a
+header record), read through `CsvReader(has_header) | LabelRows(label)`: for every label reference that names a column of
+the table (`labelCol`: an index `0 ≤ i < n`, a negative index `-n ≤ i < 0` counted from the end, or a name in the header)
+every data row comes back as (the other written cells in written order, the written cell of the label column). -/
+theorem csv_label_roundtrip (delim : Nat) (hd1 : delim ≠ DQ) (hd2 : isNl delim = false)
+    (hdr : Option (List (Bool × Text))) (rows : List (List (Bool × Text)))
+    (hok : ∀ r ∈ hdr.toList ++ rows, csvRowOk r = true) (n : Nat) (hw : ∀ r ∈ hdr.toList ++ rows, r.length = n)
+    (ref : LabelRef) (j : Nat) (hc : labelCol (hdr.map (·.map (·.2))) n ref = some j) :
+    csvLabelRead (excel delim) hdr.isSome ref ((hdr.toList ++ rows).map (csvWriteRow delim)) =
+      .ok (some ((rows.map (·.map (·.2))).map (labelSplit j))) :=
+  csv_label_roundtrip' delim hd1 hd2 hdr rows hok n hw ref j hc
+
+/-- the column found is inside the table, and a name reference finds a column carrying that name's index in the header dict -/
+theorem csv_label_col_in_range (hdr : Option (List Text)) (n : Nat) (ref : LabelRef) (j : Nat)
+    (hh : ∀ h, hdr = some h → h.length = n) (hc : labelCol hdr n ref = some j) : j < n :=
+  (labelIndex_col hdr n ref j hh hc).2
+
+/-- non-vacuity: header `a,b,y`, label `-1`, `0` and `y` -/
+example :
+    labelCol (some [[97], [98], [121]]) 3 (.idx (-1)) = some 2 ∧ labelCol (some [[97], [98], [121]]) 3 (.idx 0) = some 0 ∧
+    labelCol (some [[97], [98], [121]]) 3 (.name [121]) = some 2 ∧
+    labelSplit 2 [[49], [50], [51]] = ([[49], [50]], [51]) ∧ labelSplit 0 [[49], [50], [51]] = ([[50], [51]], [49]) := by
+  decide
+
+/-- outside `labelCol` the pipeline raises or picks by the header dict: index `n` and `-n-1` raise when the row is
+materialised, a name without header / an unknown name raises, and of two columns with the same name the LAST is the label -/
+theorem csv_label_boundary_counterexample :
+    labelRows none (.idx 2) [[[49], [50]]] = none ∧ labelRows none (.idx (-3)) [[[49], [50]]] = none ∧
+    labelRows none (.name [97]) [[[49], [50]]] = none ∧ labelRows (some [[97], [98]]) (.name [99]) [[[49], [50]]] = none ∧
+    labelRows (some [[97], [97]]) (.name [97]) [[[49], [50]]] = some [([[49]], [50])] ∧
+    labelRows none (.idx (-2)) [[[49], [50]]] = some [([[50]], [49])] := by
+  decide
+
 end Coba.C12
